@@ -384,6 +384,7 @@ impl HistExec {
         let _ = std::fs::remove_dir_all(&root);
         std::fs::create_dir_all(format!("{root}/{}", sc_header.root_name)).expect("project dir");
         std::fs::create_dir_all(format!("{root}/cwd")).expect("cwd dir");
+        std::fs::create_dir_all(format!("{root}/elsewhere")).expect("elsewhere dir");
         write_file(&root, "outside/sentinel.txt", b"must stay as it is\n");
         HistExec {
             root,
@@ -415,6 +416,15 @@ impl HistExec {
         format!("{}/{}", self.root, self.root_name)
     }
 
+    /// output directory relative to the scratch root
+    pub fn out_rel(&self) -> String {
+        if self.layout.target_form == "abs_outside" {
+            format!("elsewhere/{}", target_name(&self.layout))
+        } else {
+            format!("{}/{}", self.root_name, target_name(&self.layout))
+        }
+    }
+
     pub fn apply(&mut self, op_index: usize, op: &Op) {
         match op {
             Op::Project { files, bystanders, outside, faulty, note } => {
@@ -443,7 +453,7 @@ impl HistExec {
                 let _ = op_index;
             }
             Op::Prepopulate { entries } => {
-                let out = format!("{}/{}", self.proj(), target_name(&self.layout));
+                let out = format!("{}/{}", self.root, self.out_rel());
                 std::fs::create_dir_all(&out).expect("target dir");
                 for e in entries {
                     if e.path.ends_with('/') {
@@ -463,6 +473,7 @@ impl HistExec {
         let form = |name: &str, form: &str| -> String {
             match form {
                 "abs" => format!("{root}/{}/{name}", self.root_name),
+                "abs_outside" => format!("{root}/elsewhere/{name}"),
                 "slash" => format!("{name}/"),
                 "dotdot" => format!("../{}/{name}", self.root_name),
                 _ => name.to_string(),
@@ -640,7 +651,7 @@ impl HistExec {
             return;
         }
 
-        let out_rel = format!("{}/{}", self.root_name, target_name(&self.layout));
+        let out_rel = self.out_rel();
         let mut step_viol: Vec<Viol> = vec![];
 
         // paths written outside the scratch root that still exist
